@@ -8,7 +8,7 @@ from hypothesis import strategies as st
 from . import model as M
 
 FLOATS = [1.0, -1.5, 2.0, 2.5, 3.0, 0.5, -2.0, 4.0, 10.0, 0.0]
-PARAM_KEYS = ["factor", "addend", "divisor", "value", "w", "p", "q", "path", "seed"]
+PARAM_KEYS = ["factor", "addend", "divisor", "value", "w", "p", "q", "path", "seed", "k", "tag"]
 OTHER_KEYS = ["a", "b", "c", "k1", "out", "t_values", "w_key", "ps_a", "seq"]
 ALL_KEYS = PARAM_KEYS + OTHER_KEYS
 PATHS = ["out_a.txt", "out_b.txt"]
@@ -24,6 +24,8 @@ def value_for(name: str, bad: float = 0.06):
         good = st.sampled_from(PATHS)
     elif name == "kind":
         good = st.sampled_from(["value", "runtime"])
+    elif name == "tag":
+        good = st.sampled_from(["s", "tx", "run1"])
     elif name in ("seq", "t_values"):
         good = st.lists(st.sampled_from(FLOATS), min_size=1, max_size=3)
     elif name in ("a", "b", "c", "k1", "out"):
@@ -40,12 +42,12 @@ def value_for(name: str, bad: float = 0.06):
 SOURCES = ["FloatValueDataSource", "FloatValueDataSourceWithDefault", "FloatDataSource", "FloatPayloadSource",
            "VPayloadSourceWithKeys"]
 FLOAT_OPS = ["FloatMultiplyOperation", "FloatMultiplyOperationWithDefault", "FloatAddOperation", "FloatSquareOperation",
-             "FloatSqrtOperation", "FloatDivideOperation", "VCtxWriteOp"]
+             "FloatSqrtOperation", "FloatDivideOperation", "VCtxWriteOp", "VInPlaceScaleOp"]
 RARE_OPS = ["VUndeclaredWriteOp", "VRaiseOp"]
-PROBES = ["FloatBasicProbe", "FloatCollectValueProbe", "VEchoProbe"]
+PROBES = ["FloatBasicProbe", "FloatCollectValueProbe", "VEchoProbe", "VNoneDefaultProbe"]
 SINKS = ["FloatDataSink", "FloatPayloadSink", "FloatMockDataSink", "FloatTxtFileSaver"]
 SLICE_OPS = ["FloatMultiplyOperation", "FloatMultiplyOperationWithDefault", "FloatAddOperation", "FloatSquareOperation",
-             "FloatDivideOperation", "VCtxWriteOp"]
+             "FloatDivideOperation", "VCtxWriteOp", "VInPlaceScaleOp"]
 SLICE_PROBES = ["FloatCollectValueProbe", "FloatBasicProbe", "VEchoProbe"]
 SWEEPABLE = {"source": ["FloatValueDataSource", "FloatValueDataSourceWithDefault"],
              "operation": ["FloatMultiplyOperation", "FloatMultiplyOperationWithDefault", "FloatAddOperation",
@@ -54,7 +56,7 @@ SWEEPABLE = {"source": ["FloatValueDataSource", "FloatValueDataSourceWithDefault
 
 EXPRS1 = ["{v}", "2 * {v}", "{v} + 1.0", "-{v}", "abs({v}) + 0.5", "{v} * {v}", "max({v}, 1.0)", "{v} / 2", "float({v})"]
 EXPRS2 = ["{v} + {u}", "{v} * {u}", "{v} - {u}", "{u} * 2 + {v}", "min({v}, {u})", "{v} if {v} > {u} else {u}",
-          "({v} + {u}) * 0.5"]
+          "({v} + {u}) * 0.5", "{v} + {u} + 0.5", "0.5 + ({v} + {u})", "{v} * {u} * 2.0", "2.0 * ({u} * {v})", "({v} + 1.0) + ({u} + 2.0)"]
 
 
 @st.composite
@@ -62,6 +64,8 @@ def var_spec(draw, allow_ctx: bool = True, rich: bool = False):
     kinds = ["values", "values", "range"] + (["ctx"] if allow_ctx else [])
     k = draw(st.sampled_from(kinds))
     if k == "values":
+        if rich and draw(st.integers(0, 5)) == 0:  # occasionally a long explicit sequence (interior elements matter too)
+            return {"kind": "values", "values": draw(st.lists(st.sampled_from(FLOATS), min_size=7, max_size=10))}
         return {"kind": "values", "values": draw(st.lists(st.sampled_from(FLOATS), min_size=1, max_size=4 if rich else 3))}
     if k == "ctx":
         return {"kind": "ctx", "key": draw(st.sampled_from(["seq", "t_values", "a"]))}
@@ -121,9 +125,9 @@ def node(draw, kind: str, known: List[str], sweeps: bool = True, rare: bool = Tr
     if kind in ("None", "NoData"):
         menu += ["source"] * 5 + (["sweep_source"] if sweeps else [])
     elif kind == "Float":
-        menu += ["op"] * 5 + ["probe"] * 4 + ["sink"] * 2 + (["sweep_op", "sweep_probe"] if sweeps else []) + (["rare"] if rare and draw(st.integers(0, 3)) == 0 else [])
+        menu += ["op"] * 5 + ["probe"] * 4 + ["sink"] * 2 + ["utility"] + (["sweep_op", "sweep_probe"] if sweeps else []) + (["rare"] if rare and draw(st.integers(0, 3)) == 0 else [])
     else:
-        menu += ["slice_op"] * 3 + ["slice_probe"] * 2 + ["sum"] * 2
+        menu += ["slice_op"] * 3 + ["slice_probe"] * 2 + ["sum"] * 2 + ["utility"]
     what = draw(st.sampled_from(menu))
     n: Dict[str, Any] = {}
     if what == "ctx":
@@ -157,6 +161,8 @@ def node(draw, kind: str, known: List[str], sweeps: bool = True, rare: bool = Tr
         n["p"] = f"slice:{draw(st.sampled_from(SLICE_PROBES))}:FloatDataCollection"
     elif what == "sum":
         n["p"] = "FloatCollectionSumOperation"
+    elif what == "utility":
+        n["p"] = draw(st.sampled_from(["DataDump", "CopyDataProbe"]))
     elif what == "sweep_source":
         n["p"] = draw(st.sampled_from(SWEEPABLE["source"]))
         n["sweep"] = draw(sweep_spec(n["p"], rich_sweeps))
@@ -168,7 +174,9 @@ def node(draw, kind: str, known: List[str], sweeps: bool = True, rare: bool = Tr
         n["sweep"] = draw(sweep_spec(n["p"], rich_sweeps))
     desc = M.describe(dict(n, context_key="x"))
     if desc["kind"] == "probe":
-        if n["p"] == "FloatCollectValueProbe" and "sweep" not in n:
+        if n["p"] == "CopyDataProbe":
+            n["context_key"] = draw(st.sampled_from(OTHER_KEYS * 3 + ["p", "factor"]))
+        elif n["p"] == "FloatCollectValueProbe" and "sweep" not in n:
             n["context_key"] = _key(draw, known)
         else:  # dict / list results: mostly non-parameter keys (collisions stay possible, not dominant)
             n["context_key"] = draw(st.sampled_from(OTHER_KEYS * 6 + PARAM_KEYS))
@@ -243,7 +251,18 @@ def case(draw, max_nodes: int = 8, sweeps: bool = True, rare: bool = True, typed
         if desc["kind"] != "ctx" and k_for_node == kind or desc["kind"] in ("source", "payload_source"):
             out = desc.get("out")
             if out:
-                kind = out
+                kind = "None" if out == "NoData" else out
+    # in-place mutation aliases a data object stored in the context by CopyDataProbe: outside the reference model
+    if any(n["p"] == "CopyDataProbe" for n in nodes):
+        for n in nodes:
+            if n["p"] == "VInPlaceScaleOp":
+                n["p"] = "FloatMultiplyOperationWithDefault"
+                if "params" in n and "k" in n["params"]:
+                    n["params"] = {("factor" if k == "k" else k): v for k, v in n["params"].items()}
+            elif n["p"] == "slice:VInPlaceScaleOp:FloatDataCollection":
+                n["p"] = "slice:FloatMultiplyOperationWithDefault:FloatDataCollection"
+                if "params" in n and "k" in n["params"]:
+                    n["params"] = {("factor" if k == "k" else k): v for k, v in n["params"].items()}
     # initial payload typed to what the first data node expects (mostly)
     first_data = next((M.describe(n) for n in nodes if M.describe(n)["kind"] != "ctx"), None)
     want = first_data["inp"] if first_data else "None"
